@@ -32,6 +32,31 @@ func cmdConc(args []string) error {
 		gw = bufio.NewWriter(f)
 		defer gw.Flush()
 	}
+	// cold start: the very first uses of the library in this process happen concurrently (whatever is built lazily on first use -
+	// tables, caches, pools - is first touched by several goroutines at once; the race detector reports unsynchronised initialisation)
+	{
+		cold := []string{`a == 1`, `s matches "^x"`, `any l as v { v == 1 }`, `not (a in b)`, `"/a/b" is empty`, `a ==`, ``, `m.k != "v" or n == 2`}
+		var wg sync.WaitGroup
+		start := make(chan struct{})
+		for g := 0; g < 16; g++ {
+			wg.Add(1)
+			go func(g int) {
+				defer wg.Done()
+				<-start
+				for i := 0; i < 4; i++ {
+					src := cold[(g+i)%len(cold)]
+					if ev, err := bexpr.CreateEvaluator(src); err == nil && ev != nil {
+						ev.Evaluate(map[string]interface{}{"a": 1, "s": "x", "l": []int{1}})
+					}
+					if fl, err := bexpr.CreateFilter(src); err == nil && fl != nil {
+						fl.Execute([]map[string]interface{}{{"a": 1}})
+					}
+				}
+			}(g)
+		}
+		close(start)
+		wg.Wait()
+	}
 	short := func(s string) string {
 		if len(s) > 3 && s[:3] == "ok:" {
 			return fmt.Sprintf("ok:%x", len(s))
